@@ -101,6 +101,8 @@ def zval(v):
 
 
 def sort_of(desc):
+    if desc == "opaque":
+        return z3.IntSort()
     if desc in ("int", "byte"):
         return z3.IntSort()
     if desc == "bool":
@@ -267,3 +269,10 @@ class Opaque:
 
     def __repr__(self):
         return f"Opaque({self.what})"
+
+
+class MatchV:
+    """A successful re match object: pattern, subject text and the translated pattern."""
+
+    def __init__(self, rx, text, tr):
+        self.rx, self.text, self.tr = rx, text, tr
